@@ -981,6 +981,12 @@ func (r *Run) opCopy(op *Op) {
 
 func (r *Run) opSetVersioning(op *Op) {
 	body := fmt.Sprintf(`<VersioningConfiguration xmlns="http://s3.amazonaws.com/doc/2006-03-01/"><Status>%s</Status></VersioningConfiguration>`, op.Status)
+	switch op.Status {
+	case "nostatus": // well-formed, and says nothing about the status
+		body = `<VersioningConfiguration xmlns="http://s3.amazonaws.com/doc/2006-03-01/"><MfaDelete>Disabled</MfaDelete></VersioningConfiguration>`
+	case "empty":
+		body = `<VersioningConfiguration xmlns="http://s3.amazonaws.com/doc/2006-03-01/"/>`
+	}
 	req := &simnet.Request{Method: "PUT", Target: target(op.B, "", url.Values{"versioning": {""}}),
 		Headers: [][2]string{{"Content-Length", strconv.Itoa(len(body))}}, Body: []byte(body)}
 	resp := r.send(req, op.Faults, r.frag(op))
@@ -995,6 +1001,36 @@ func (r *Run) opSetVersioning(op *Op) {
 		if op.Status == "Enabled" && resp.Status != 501 {
 			r.fail("version.id", "enabling versioning on a backend without versioning does not answer NotImplemented "+r.bctx(), "501", resp.String())
 		}
+		return
+	}
+	if op.Status == "nostatus" || op.Status == "empty" {
+		// The server may refuse such a document, leave the state alone or
+		// suspend: the state it reports afterwards is the one it has to behave
+		// as.  What it may not do is forget that the bucket holds versions: a
+		// bucket that has been versioned and reports no status is held to the
+		// promise made for suspension (nothing created while versioning was
+		// enabled is removed or altered by later uploads and deletes).
+		if !resp.OK() {
+			if resp.Status >= 500 {
+				r.fail("version.id", "a versioning configuration without a status is answered with a server error "+r.bctx(), "2xx or 4xx", resp.String())
+			}
+			return
+		}
+		g := r.quiet("GET", target(op.B, "", url.Values{"versioning": {""}}))
+		var vc struct {
+			Status string `xml:"Status"`
+		}
+		if g.Status != 200 || xml.Unmarshal(g.Body, &vc) != nil {
+			r.fail("version.id", "the versioning state cannot be read "+r.bctx(), "200", g.String())
+		}
+		switch {
+		case vc.Status == "Enabled" || vc.Status == "Suspended":
+			b.Versioning = vc.Status
+		case b.Versioning != "":
+			b.Versioning = "Suspended"
+		}
+		r.probe("versioning configuration without a status")
+		r.stats.Mutations++
 		return
 	}
 	if !resp.OK() {
